@@ -133,7 +133,7 @@ static void pool_create(pool_t *p)
 static void ensure_cache(pool_t *p) { if (!p->cache) p->cache = pixman_glyph_cache_create(); }
 
 /* exact packing of the canonical form.  Per image 18 bits: client refs 2, alive 1, [white-box] ref_count 3, alpha_count 2, alpha_map 2
- * (0 none, 1+j), transform/filter_params/have_clip 3, [model] T F C 3, D 2.  Then 2 bits glyph keys. */
+ * (0 none, 1+j), transform/filter_params/have_clip 3, [model] T F C 3, D 2.  Then 2 bits glyph keys, then 3 bits "clip owns a rectangle array". */
 static uint64_t pool_canon(pool_t *p)
 {
     uint64_t v = 0;
@@ -150,6 +150,9 @@ static uint64_t pool_canon(pool_t *p)
                 | (uint64_t)x->T << 13 | (uint64_t)x->F << 14 | (uint64_t)x->C << 15 | (uint64_t)x->D << 16;
         }
         v |= w << (18 * i);
+        /* [white-box] the image's clip owns a heap rectangle array (multi-rectangle clip): a one-rectangle and a three-rectangle
+         * clip do not have the same futures as far as heap ownership goes, so they must not be merged */
+        if (x->alive && p->img[i]->common.have_clip_region && p->img[i]->common.clip_region.data && p->img[i]->common.clip_region.data->size) v |= (uint64_t)1 << (56 + i);
     }
     v |= (uint64_t)p->m.gkey[0] << 54 | (uint64_t)p->m.gkey[1] << 55;
     return v;
@@ -165,7 +168,8 @@ static const char *canon_str(uint64_t v, char *buf, size_t cap)
         l += snprintf(buf + l, cap - l, "%s:client=%d ref_count=%d alpha_count=%d alpha_map=%s props=%c%c%c/dfn%d ", iname[i], (int)(w & 3), (int)(w >> 3 & 7), (int)(w >> 6 & 3),
                       am == 0 ? "-" : iname[am - 1], (w >> 10 & 1) ? 'T' : '-', (w >> 11 & 1) ? 'F' : '-', (w >> 12 & 1) ? 'C' : '-', (int)(w >> 16 & 3));
     }
-    snprintf(buf + l, cap - l, "glyphs=%s%s", (v >> 54 & 1) ? "A" : "", (v >> 55 & 1) ? "B" : "");
+    l += snprintf(buf + l, cap - l, "glyphs=%s%s", (v >> 54 & 1) ? "A" : "", (v >> 55 & 1) ? "B" : "");
+    if (v >> 56 & 7) snprintf(buf + l, cap - l, " multi-rect-clip=%s%s%s", (v >> 56 & 1) ? "A" : "", (v >> 57 & 1) ? "B" : "", (v >> 58 & 1) ? "G" : "");
     return buf;
 }
 
